@@ -49,6 +49,11 @@ struct Interrupted {
 
 /// Runs the batch executor; the flag is cleared at the `at`-th event of `site` (1-based), or after `rows` printed lines.
 fn run_interrupted(p: &crate::props::c06::Prepared, files: &[std::path::PathBuf], site: Option<(&'static str, usize)>, rows: Option<usize>) -> Result<Interrupted, String> {
+    run_interrupted_with(p, files, site, rows, true)
+}
+
+/// `print_result` = false: the statistics-only run (DisplayOptions::print_result, a public field the benchmarks use)
+fn run_interrupted_with(p: &crate::props::c06::Prepared, files: &[std::path::PathBuf], site: Option<(&'static str, usize)>, rows: Option<usize>, print_result: bool) -> Result<Interrupted, String> {
     let running = Arc::new(AtomicBool::new(true));
     let count = Rc::new(Cell::new(0usize));
     let after_join = Rc::new(Cell::new(0usize));
@@ -88,7 +93,7 @@ fn run_interrupted(p: &crate::props::c06::Prepared, files: &[std::path::PathBuf]
             }
         })));
     }
-    let options = RunOptions { stop_after_lines: rows, running: running.clone(), ..RunOptions::default() };
+    let options = RunOptions { stop_after_lines: rows, running: running.clone(), print_result, ..RunOptions::default() };
     let out = run_batch(&p.tables, &p.statement, files, options);
     sqlgrep::verif_hooks::set_probe(None);
     Ok(Interrupted { out: out?, join_lines_after: after_join.get(), file_lines_after: after_file.get(), lines_taken_while_running: taken_out.get(), file_probes: probes_out.get() })
@@ -309,6 +314,16 @@ impl Property for C19 {
                     format!("{}: lines-consumed-after-interrupt", kind),
                     format!("{}: {} lines consumed (expected {})\n  {}", where_, r.out.total_lines, e - 1, context),
                 ));
+            }
+            // a run that prints nothing (statistics only) notices the interrupt at the same line
+            if r.out.result.is_ok() {
+                let silent = run_interrupted_with(&p, &files, Some(("file_line", e)), None, false).map_err(panic_fail)?;
+                if silent.file_lines_after > 0 || silent.out.total_lines != (e - 1) as u64 {
+                    return Err(Failure::new(
+                        format!("{}: lines-consumed-after-interrupt (nothing printed)", kind),
+                        format!("{} with print_result = false: {} lines consumed (expected {}), {} fetched after the interrupt\n  {}", where_, silent.out.total_lines, e - 1, silent.file_lines_after, context),
+                    ));
+                }
             }
             if aggregate {
                 let want = batch_prefix(e - 1)?;
